@@ -146,6 +146,10 @@ class EventletConnection(Connection):
         if not self.is_defunct:
             self.error_all_requests(
                 ConnectionShutdown("Connection to %s was closed" % self.endpoint))
+            # the connection was shut down before the handshake completed:
+            # whoever waits on connected_event must see an error, not a ready connection
+            if not self.connected_event.is_set():
+                self.last_error = ConnectionShutdown("Connection to %s was closed" % self.endpoint)
             # don't leave in-progress operations hanging
             self.connected_event.set()
 
